@@ -1928,6 +1928,85 @@ example : dateOf ⟨2024, 2, 28⟩ 2 = ⟨2024, 3, 1⟩ ∧ dateOf ⟨2023, 2, 2
     dateOf ⟨2024, 12, 31⟩ 1 = ⟨2025, 1, 1⟩ ∧ dateOf ⟨2024, 1, 1⟩ 366 = ⟨2025, 1, 1⟩ ∧ isLeap 1900 = false := by
   decide +kernel
 
+/-- calendar order of two dates (year, month, day lexicographically) -/
+def dateLt (a b : Sched.Date) : Prop := a.y < b.y ∨ (a.y = b.y ∧ (a.m < b.m ∨ (a.m = b.m ∧ a.d < b.d)))
+
+theorem dateLt_trans {a b c : Sched.Date} (h1 : dateLt a b) (h2 : dateLt b c) : dateLt a c := by
+  unfold dateLt at *; omega
+
+theorem dateLt_irrefl (a : Sched.Date) : ¬ dateLt a a := by
+  unfold dateLt; omega
+
+/-- the next day is strictly later, and at most one year later -/
+theorem nextDate_lt (d : Sched.Date) (h : validDate d) : dateLt d (nextDate d) ∧ (nextDate d).y ≤ d.y + 1 := by
+  obtain ⟨_, h2, _, h4⟩ := h
+  unfold nextDate
+  split
+  · exact ⟨Or.inr ⟨rfl, Or.inr ⟨rfl, Nat.lt_succ_self _⟩⟩, Nat.le_succ _⟩
+  · split
+    · exact ⟨Or.inr ⟨rfl, Or.inl (Nat.lt_succ_self _)⟩, Nat.le_succ _⟩
+    · exact ⟨Or.inl (Nat.lt_succ_self _), Nat.le_refl _⟩
+
+/-- the computed calendar never goes backwards and never repeats a date: day indices and dates are in
+one-to-one, order-preserving correspondence (so "per calendar year" counts of C06 are well defined) -/
+theorem dateOf_strictMono (start : Sched.Date) (h : validDate start) (i j : Nat) (hij : i < j) :
+    dateLt (dateOf start i) (dateOf start j) := by
+  induction j with
+  | zero => omega
+  | succ j ih =>
+    have hn := (nextDate_lt _ (dateOf_valid start h j)).1
+    by_cases hj : i = j
+    · subst hj; exact hn
+    · exact dateLt_trans (ih (by omega)) hn
+
+theorem dateOf_injective (start : Sched.Date) (h : validDate start) (i j : Nat)
+    (he : dateOf start i = dateOf start j) : i = j := by
+  rcases Nat.lt_trichotomy i j with hlt | heq | hgt
+  · exact absurd (he ▸ dateOf_strictMono start h i j hlt) (dateLt_irrefl _)
+  · exact heq
+  · exact absurd (he ▸ dateOf_strictMono start h j i hgt) (dateLt_irrefl _)
+
+/-- the calendar year never decreases along the run, and grows by at most one per day -/
+theorem dateOf_year_mono (start : Sched.Date) (h : validDate start) (i j : Nat) (hij : i ≤ j) :
+    (dateOf start i).y ≤ (dateOf start j).y ∧ (dateOf start j).y ≤ (dateOf start i).y + (j - i) := by
+  induction j with
+  | zero => have : i = 0 := by omega
+            subst this; exact ⟨Nat.le_refl _, by omega⟩
+  | succ j ih =>
+    by_cases hj : i = j + 1
+    · subst hj; exact ⟨Nat.le_refl _, by omega⟩
+    · have ih' := ih (by omega)
+      have hv := dateOf_valid start h j
+      have hn := nextDate_lt _ hv
+      have hy : (dateOf start j).y ≤ (nextDate (dateOf start j)).y := by
+        have := hn.1; unfold dateLt at this; omega
+      show (dateOf start i).y ≤ (nextDate (dateOf start j)).y ∧
+        (nextDate (dateOf start j)).y ≤ (dateOf start i).y + (j + 1 - i)
+      omega
+
+/-- the days of one calendar year form an interval of day indices (no year is left and re-entered) -/
+theorem dateOf_year_interval (start : Sched.Date) (h : validDate start) (i j k : Nat) (hij : i ≤ j) (hjk : j ≤ k)
+    (hy : (dateOf start i).y = (dateOf start k).y) : (dateOf start j).y = (dateOf start i).y := by
+  have h1 := (dateOf_year_mono start h i j hij).1
+  have h2 := (dateOf_year_mono start h j k hjk).1
+  omega
+
+/-- when the calendar input of a simulation is the computed calendar, (f) reads: requests are issued only on
+days whose computed calendar year / month lie in the deployment years / months -/
+theorem sim_issued_in_months_calendar (w : World) (prog : Program) (inp : Inputs) (start : Sched.Date)
+    (hc : ∀ n, inp.date n = dateOf start n) (n : Nat) :
+    ∀ t ∈ dayTraces w prog inp n, ∀ i ∈ t.issued,
+      (dateOf start n).y ∈ (t.cfg.P i).depYears ∧ (dateOf start n).m ∈ (t.cfg.P i).months := by
+  intro t ht i hi
+  have := sim_issued_in_months w prog inp n t ht i hi
+  rw [hc n] at this
+  exact ⟨this.2.2.1, this.2.2.2⟩
+
+/-- non-vacuity: a real start date; New Year's Eve precedes New Year's Day -/
+example : validDate ⟨2023, 12, 31⟩ ∧ dateLt (dateOf ⟨2023, 12, 31⟩ 0) (dateOf ⟨2023, 12, 31⟩ 1) := by
+  refine ⟨by unfold validDate; decide +kernel, ?_⟩
+  exact dateOf_strictMono _ (by unfold validDate; decide +kernel) 0 1 (by omega)
+
 /-! ### the statements at full strength, what is proved, and why (b), (c) need a well-formed scenario -/
 
 /-- (b) and (c) for *all* worlds -/
